@@ -31,7 +31,8 @@ EXTRA = [
 
 
 def tasks(tier, seed):
-    P = [{"family": "IDX", "id": text_id(t), "text": t, "meta": {}} for t in EXTRA]
+    from . import c12
+    P = [{"family": "IDX", "id": text_id(t), "text": t, "meta": {}} for t in EXTRA + c12.UNUSED[:4]]
     P += families.layout_family()
     dg = families.dag_family(2 if tier == "quick" else 3, 2)
     P += families.select(dg, 12 if tier == "quick" else 200, seed)
@@ -279,6 +280,16 @@ def work(task):
         # slot agreement by name: rhs/scheme/monitor
         checks.check_rhs_monitor(prog, view, m)
         checks.check_euler(prog, view, m)
+        # slots must agree by name under the remove-unused configuration as well
+        vr = checks.make_view(prog, ode, backend, label=f"{backend}|get_code|remove_unused", schemes=["explicit_euler"], remove_unused=True)
+        if vr is not None:
+            for kind in ("state", "parameter", "monitor"):
+                prog.fact(f"{backend}|{kind}_index|remove_unused", vr.index_map(kind) == view.index_map(kind), "LayoutChanged",
+                          f"{kind} index map changes with remove_unused")
+            checks.check_rhs_monitor(prog, vr, m, tag="|ru")
+            checks.check_euler(prog, vr, m, tag="|ru")
+            if backend == "c":
+                vr.close()
         order = sorted(view.index_map("state"), key=lambda k: view.index_map("state")[k])
         if order != sorted(order):
             prog.nontrivial = True
